@@ -50,7 +50,7 @@ def ridge_interval(S, eps, relative, method, lam_hat=None, retries=None):
 
 
 def check_root(S, X, p, err, eps, relative, method, lam_hat=None,
-               retries=None, u=U32, k=K):
+               retries=None, u=U32, k=K, u_compute=None):
   """Returns (status, ratio, detail). status in ok|vacuous|violation."""
   S = np.asarray(S, np.float64)
   X = np.asarray(X, np.float64)
@@ -74,8 +74,13 @@ def check_root(S, X, p, err, eps, relative, method, lam_hat=None,
   slack = k * n * p * kappa * u
   if slack > 0.05:
     return 'vacuous', None, 'slack'
-  if asym > k * u * max(xn, 1e-300) * max(1.0, kappa ** (1.0 / p)):
-    return 'violation', asym / (k * u * max(xn, 1e-300)), 'asymmetric'
+  # symmetric up to rounding: one ulp of the stored dtype plus what up to 100
+  # coupled-Newton products accumulate in the compute dtype
+  uc = u if u_compute is None else u_compute
+  sym_tol = (k * u + 100.0 * n * uc * max(1.0, kappa ** (1.0 / p))) * \
+      max(xn, 1e-300)
+  if asym > sym_tol:
+    return 'violation', asym / sym_tol, 'asymmetric'
   Xp = np.linalg.matrix_power(X, int(p))
   M0 = Xp @ S - np.eye(n)
   M1 = Xp
